@@ -161,6 +161,28 @@ def r1_positions(repo):
         kd = "definitions of `%s` reaching the lookup: %s" % (e, [k if k == "param" else src(v)[:60] for _d, v, k in defs])
     obs.append(Ob("C07-R1", "position:type-variable-lookup-key-is-the-input", _w(g), okk,
                   "type_map must be consulted with the type variable as given, before anything is rebuilt; " + kd))
+    # (5b) the input is handed back unchanged only where nothing below it can be substituted: never on a path on
+    # which it is known to be a projection with a bound, a parameterized type or a bounded type variable - unless
+    # that path also established that it has no type variables
+    for r in rets:
+        if r.value is None or src(r.value) != e:
+            continue
+        gs = [(src(t), p) for t, p in flat_guards(r)]
+        pos = {t for t, p in gs if p}
+        neg = {t for t, p in gs if not p}
+        ground = any(t in ("%s.has_type_variables()" % e, "%s.bound.has_type_variables()" % e) for t in neg)
+        kinds = []
+        if "%s.is_wildcard()" % e in pos and "%s.bound is None" % e in neg:
+            kinds.append("a projection with a bound")
+        if "%s.is_parameterized()" % e in pos:
+            kinds.append("a parameterized type")
+        if "%s.is_type_var()" % e in pos and "%s.bound is None" % e in neg:
+            kinds.append("a bounded type variable")
+        obs.append(Ob("C07-R1", "position:input-returned-unchanged-only-without-components@%d" % len(
+            [o for o in obs if o.key.startswith("position:input-returned")]), "%s:%d" % (g.module.relpath, r.lineno),
+            ground or not kinds,
+            "`return %s` on a path where `%s` is %s (guards %s): its components may still mention variables of the map"
+            % (e, e, " / ".join(kinds) or "-", [("" if p else "not ") + t for t, p in gs])))
     # (6) TypeConstructor.supertypes[*]
     f = repo.fn(T + ".perform_type_substitution")
     e2 = f.params[0]
